@@ -18,13 +18,13 @@ ID = "C17"
 LEVEL = "model_checking"
 TIER = "quick"
 EPS = ""
-MB = ["a", "é", "ü", "€", "👋"]  # 1, 2, 2 (same first byte), 3, 4 bytes
+MB = ["a", "é", "ü", "€", "👋", "𐐀", "₂"]  # 1, 2, 2 (same first byte), 3, 4 bytes; U+10400 = f0 90 90 80 and U+2082 = e2 82 82 repeat a continuation byte
 
 
 def cfgp():
     if TIER == "thorough":
-        return dict(D=6, cfg_space=(2, ["a", "b", EPS], 3), byte_spaces=[(2, ["a", "é", "ü", EPS], 3), (2, ["é", "€", "👋", EPS], 2), (1, ["a", "é", "ü", "€", "👋", EPS], 2)], merge_arcs=2, gdepth=3)
-    return dict(D=5, cfg_space=(2, ["a", "b", EPS], 3), byte_spaces=[(2, ["a", "é", "ü", EPS], 2), (1, ["a", "é", "ü", "€", "👋", EPS], 2)], merge_arcs=2, gdepth=2)
+        return dict(D=6, cfg_space=(2, ["a", "b", EPS], 3), byte_spaces=[(2, ["a", "é", "ü", EPS], 3), (2, ["é", "€", "👋", EPS], 2), (1, ["a", "é", "ü", "€", "👋", "𐐀", "₂", EPS], 2), (2, ["𐐀", "₂", "é", EPS], 2)], merge_arcs=2, gdepth=3)
+    return dict(D=5, cfg_space=(2, ["a", "b", EPS], 3), byte_spaces=[(2, ["a", "é", "ü", EPS], 2), (1, ["a", "é", "ü", "€", "👋", "𐐀", "₂", EPS], 2)], merge_arcs=2, gdepth=2)
 
 
 def init_worker(tier):
@@ -201,8 +201,9 @@ def run_to_bytes(case):
 def run_merge(case):
     A = fsm.ops_from_json(case["A"])
     B = fsm.ops_from_json(case["B"])
-    WA = fsm.poly_weights(len(A))
-    WB = fsm.poly_weights(len(B), offset=len(A))
+    # degree budget on arcs: initial and final weights are one
+    WA = fsm.arc_weights(A, unit=("I", "F"))
+    WB = fsm.arc_weights(B, offset=len(A), unit=("I", "F"))
     tA = byte_image(clean(paths(fsm.data(A, WA))))
     tB = byte_image(clean(paths(fsm.data(B, WB))))
     want = {}
